@@ -197,11 +197,11 @@ up after the hook handled its SYN — at any later time, without waiting in the 
 works with is exactly the decision the kernel took for the SYN (outbound, mark, must, DSCP, client MAC). -/
 theorem lan_new_tcp_connection_reaches_relay_with_its_decision (rt : RouteIn → Int) (w : World) (s : Skb) (l2 : Bool)
     (p : Pkt) (hp : parsePacket s.raw l2 = .pkt p) (ht : p.l4proto = IPPROTO_TCP) (hs : p.syn = true)
-    (ha : p.ack = false) (hr : 0 ≤ rt (lanRouteIn s p)) (hc : connRoom w p.tuples.five) (hrt : rtrackRoom w s p) (t : Nat) :
+    (ha : p.ack = false) (hr : 0 ≤ rt (lanRouteIn s p)) (hc : connRoom w p.tuples.five) (hrt : rtrackRoom w s p) (t : Nat) (cfg : RelayCfg) :
     tcpConsumer (retrieve (lanIngress rt w s l2).1 p.tuples.five t) =
       ⟨(unpackRoute (rt (lanRouteIn s p))).mark, (unpackRoute (rt (lanRouteIn s p))).must, p.ethSrc,
         (unpackRoute (rt (lanRouteIn s p))).ob, zeros 16, 0, p.tuples.dscp⟩ ∧
-    tcpConsumerDelay (retrieve (lanIngress rt w s l2).1 p.tuples.five t) = 0 := by
+    tcpConsumerDelay cfg (retrieve (lanIngress rt w s l2).1 p.tuples.five t) = 0 := by
   rw [(lan_new_tcp_connection rt w s l2 p hp ht hs ha hr hc hrt).2 t]
   exact ⟨rfl, rfl⟩
 
